@@ -42,8 +42,19 @@ def lam_ratio(t):
 def run(ctx):
     M = ctx.model
     S = summariser(ctx)
+    sites = check_macros(ctx, MACROS, "C10.R1", "C10.R2", "C10.R4")
+    ctx.extra["instantiation_sites"] = sites
+    if sites < 7:
+        ctx.error("C10.R1: %d instantiation sites found, floor 7" % sites)
+    ctx.floor("C10.R1", 7 * 3)
+    ctx.floor("C10.R2", 14)
+    rest(ctx)
+
+
+def check_macros(ctx, names, R1, R2, R4):
+    M = ctx.model
     sites = 0
-    for name in MACROS:
+    for name in names:
         fi = M.function(name)
         paths = paths_of(ctx, fi)
         rets = [p for p in paths if p.returns]
@@ -54,7 +65,7 @@ def run(ctx):
                 ctors.append((p, r))
             else:
                 # macro patches KSY emitters onto the instance and returns the local
-                ctx.ob("C10.R1", fi, False, "%s does not return a Transformed/Restreamed constructor term" % name, key="%s shape" % name)
+                ctx.ob(R1, fi, False, "%s does not return a Transformed/Restreamed constructor term" % name, key="%s shape" % name)
         sub = ("param", "subcon")
         pairs = set()
         for p, r in ctors:
@@ -70,37 +81,37 @@ def run(ctx):
             else:
                 ok = False
                 dec = enc = None
-            ctx.ob("C10.R1", fi, ok, "%s instantiates %s over its sub-construct with the expected arity" % (name, kind), key="%s %s arity" % (name, kind))
+            ctx.ob(R1, fi, ok, "%s instantiates %s over its sub-construct with the expected arity" % (name, kind), key="%s %s arity" % (name, kind))
             if not ok:
                 continue
             d, e = fname(dec), fname(enc)
             pairs.add((d, e))
-            ctx.ob("C10.R1", fi, frozenset((d, e)) in INVERSE_PAIRS, "%s/%s: decoder %s and encoder %s are an inverse pair" % (name, kind, d, e), key="%s %s inverse pair" % (name, kind))
-            ctx.ob("C10.R1", fi, d == MACRO_DECODER[name], "%s/%s: the decoder produces the representation the inner construct works on (%s)" % (name, kind, MACRO_DECODER[name]), key="%s %s direction" % (name, kind))
+            ctx.ob(R1, fi, frozenset((d, e)) in INVERSE_PAIRS, "%s/%s: decoder %s and encoder %s are an inverse pair" % (name, kind, d, e), key="%s %s inverse pair" % (name, kind))
+            ctx.ob(R1, fi, d == MACRO_DECODER[name], "%s/%s: the decoder produces the representation the inner construct works on (%s)" % (name, kind, MACRO_DECODER[name]), key="%s %s direction" % (name, kind))
             if d not in HELPER_UNITS or e not in HELPER_UNITS:
                 continue
             gd, rd = HELPER_UNITS[d]
             ge, re_ = HELPER_UNITS[e]
             if kind == "Transformed":
                 ra, rb = size_ratio(da, size) if size else None, size_ratio(ea, size) if size else None
-                ctx.ob("C10.R2", fi, size is not None and ra is not None and ra * rd == 1, "%s/Transformed: decodeamount * ratio(%s) == sizeof(subcon) (decodeamount = %s)" % (name, d, N.show(da)), key="%s decodeamount" % name)
-                ctx.ob("C10.R2", fi, size is not None and rb is not None and rb == re_, "%s/Transformed: encodeamount == sizeof(subcon) * ratio(%s) (encodeamount = %s)" % (name, e, N.show(ea)), key="%s encodeamount" % name)
+                ctx.ob(R2, fi, size is not None and ra is not None and ra * rd == 1, "%s/Transformed: decodeamount * ratio(%s) == sizeof(subcon) (decodeamount = %s)" % (name, d, N.show(da)), key="%s decodeamount" % name)
+                ctx.ob(R2, fi, size is not None and rb is not None and rb == re_, "%s/Transformed: encodeamount == sizeof(subcon) * ratio(%s) (encodeamount = %s)" % (name, e, N.show(ea)), key="%s encodeamount" % name)
                 reached_ok = not any(x.kind == "CATCH" for x in p.events)
-                ctx.ob("C10.R4", fi, reached_ok, "%s: the pre-read implementation is used when the size is known" % name, key="%s sized branch" % name)
+                ctx.ob(R4, fi, reached_ok, "%s: the pre-read implementation is used when the size is known" % name, key="%s sized branch" % name)
             else:
-                ctx.ob("C10.R2", fi, gd is not None and du == N.const(gd), "%s/Restreamed: decoderunit is the input granule of %s (%s)" % (name, d, N.show(du)), key="%s decoderunit" % name)
-                ctx.ob("C10.R2", fi, ge is not None and eu == N.const(ge), "%s/Restreamed: encoderunit is the input granule of %s (%s)" % (name, e, N.show(eu)), key="%s encoderunit" % name)
+                ctx.ob(R2, fi, gd is not None and du == N.const(gd), "%s/Restreamed: decoderunit is the input granule of %s (%s)" % (name, d, N.show(du)), key="%s decoderunit" % name)
+                ctx.ob(R2, fi, ge is not None and eu == N.const(ge), "%s/Restreamed: encoderunit is the input granule of %s (%s)" % (name, e, N.show(eu)), key="%s encoderunit" % name)
                 lr = lam_ratio(sc)
-                ctx.ob("C10.R2", fi, lr is not None and lr * rd == 1, "%s/Restreamed: sizecomputer(n) == n / ratio(%s)" % (name, d), key="%s sizecomputer" % name)
+                ctx.ob(R2, fi, lr is not None and lr * rd == 1, "%s/Restreamed: sizecomputer(n) == n / ratio(%s)" % (name, d), key="%s sizecomputer" % name)
                 reached_ok = any(x.kind == "CATCH" and x["types"] == ("SizeofError",) for x in p.events)
-                ctx.ob("C10.R4", fi, reached_ok, "%s: the streaming implementation is reached only through the SizeofError handler" % name, key="%s streaming branch" % name)
-        ctx.ob("C10.R1", fi, len(pairs) == 1, "%s: both implementations use the same (decoder, encoder) pair in the same roles (%s)" % (name, sorted(pairs)), key="%s same pair" % name)
-    ctx.extra["instantiation_sites"] = sites
-    if sites < 7:
-        ctx.error("C10.R1: %d instantiation sites found, floor 7" % sites)
-    ctx.floor("C10.R1", 7 * 3)
-    ctx.floor("C10.R2", 14)
+                ctx.ob(R4, fi, reached_ok, "%s: the streaming implementation is reached only through the SizeofError handler" % name, key="%s streaming branch" % name)
+        ctx.ob(R1, fi, len(pairs) == 1, "%s: both implementations use the same (decoder, encoder) pair in the same roles (%s)" % (name, sorted(pairs)), key="%s same pair" % name)
+    return sites
 
+
+def rest(ctx):
+    M = ctx.model
+    S = summariser(ctx)
     # ---- R4: BitStruct
     fi = M.function("BitStruct")
     paths = paths_of(ctx, fi)
